@@ -44,7 +44,17 @@ size_t vf_w_off, vf_w_len, vf_w_nm, vf_w_sz, vf_w_beg, vf_w_end, vf_w_i, vf_w_ha
                          FRESH(RA(a)->buf, vf_w_nm * vf_w_sz))
 #define A_RANGE(a)      ((vf_u128)(a)->off + (a)->len <= RA(a)->nm)
 #define A_WIT(a)        (vf_w_off == (a)->off && vf_w_len == (a)->len)
-#define A_WITB(a)       (vf_w_hard == HARD(BLK(a)) && vf_w_soft == SOFT(BLK(a)))
+/* optional case split on the owner counts (exhaustive: 1/1, 1/>1, >1), selected with -DVF_A_CASE */
+#if defined(VF_A_CASE) && VF_A_CASE == 1
+#define A_CASE(a)       (HARD(BLK(a)) == 1 && SOFT(BLK(a)) == 1)
+#elif defined(VF_A_CASE) && VF_A_CASE == 2
+#define A_CASE(a)       (HARD(BLK(a)) == 1 && SOFT(BLK(a)) > 1)
+#elif defined(VF_A_CASE) && VF_A_CASE == 3
+#define A_CASE(a)       (HARD(BLK(a)) > 1)
+#else
+#define A_CASE(a)       1
+#endif
+#define A_WITB(a)       (vf_w_hard == HARD(BLK(a)) && vf_w_soft == SOFT(BLK(a)) && A_CASE(a))
 
 #ifdef VF_A_EXTERNAL
 #define A_VIEW(a)       (A_FRESH(a) && A_EXTERNAL(a) && A_RANGE(a) && A_WIT(a) && A_WITB(a))
